@@ -461,7 +461,7 @@ Spec == Init /\ [][Next]_vars
 BQ == QuoteEndsAtBackslashQuote
 
 (* ------------------------------ properties ------------------------------ *)
-TypeOK == text \in Seq(Alphabet) /\ Allowed(text)
+TypeOK == text \in Seq(Alphabet) /\ Allowed(text) /\ nchunks \in 0..MaxChunks
 
 \* A violated conjunct of TextProps names itself in TLC's output.
 Holds(name, cond) == cond \/ (PrintT(<<"violated conjunct", name>>) /\ FALSE)
